@@ -36,6 +36,8 @@ type Frame struct {
 	results   Value
 }
 
+type sliceData struct{ s *SliceVal }
+
 func rtPanic(msg string) { panic(&goPanic{msg: "runtime error: " + msg}) }
 
 func (ex *Exec) constValue(c *ssa.Const) Value {
@@ -1295,6 +1297,39 @@ func (t *Thread) builtin(fr *Frame, b *ssa.Builtin, args []Value, c *ssa.CallCom
 			}
 		}
 		return (*IfaceVal)(nil)
+	case "SliceData":
+		// unsafe.SliceData: a pointer that remembers the slice (only unsafe.String consumes it)
+		sv := args[0].(*SliceVal)
+		if sv.Arr == nil {
+			return (*Cell)(nil)
+		}
+		return &Cell{T: sv.Arr.T.Underlying().(*types.Array).Elem(), Tag: &sliceData{sv}}
+	case "String":
+		// unsafe.String(ptr, len)
+		n := t.concreteInt(args[1].(*Term), "unsafe.String length")
+		c, _ := args[0].(*Cell)
+		if c == nil {
+			if n == 0 {
+				return &StrVal{}
+			}
+			rtPanic("unsafe.String: ptr is nil and len is not zero")
+		}
+		out := &StrVal{B: make([]*Term, n)}
+		if sd, ok := c.Tag.(*sliceData); ok && n <= sd.s.Len {
+			for k := 0; k < n; k++ {
+				out.B[k] = sd.s.Arr.Elem(sd.s.Off + k).V.(*Term)
+			}
+			return out
+		}
+		if c.Up != nil && c.UpIdx+n <= c.Up.N {
+			// &b[i] of a byte array
+			for k := 0; k < n; k++ {
+				out.B[k] = c.Up.Elem(c.UpIdx + k).V.(*Term)
+			}
+			return out
+		}
+		unsupportedf("unsafe.String on a pointer that is not the address of a byte-array element")
+		return nil
 	case "ssa:wrapnilchk":
 		if c, ok := args[0].(*Cell); ok && c == nil {
 			rtPanic("value method called using nil pointer")
